@@ -251,8 +251,39 @@ def check_C03(tr, expiration=None):
     inc = {}        # (app, name) -> incarnation counter
     told = {}       # (app, name, inc) -> mailbox id
     owner = {}      # mailbox id -> (app, name, inc)
+    # by the HISTORY alone: the sides that may hold a claim on (app, name) - every side that sent a claim for it or was
+    # allocated it (answered or not: a crashed claim may have been committed), minus the sides answered `released`.
+    # When a `released` answer empties this set the nameplate is retired whatever the tables say, so a later
+    # `claimed` answer carrying the old mailbox id is a violation (e.g. a release whose effect was never committed
+    # and was lost at a restart).
+    holders = {}
+    blind = set()   # apps in which an allocate died before its answer: the held name is unknown, no ghost retirement
     for st in tr.steps:
         op = st.op
+        ghost_gone = set()
+        if op["op"] == "recv" and st.bind_pre.get(op["c"]):
+            b_ = st.bind_pre[op["c"]]
+            ty_ = op["msg"].get("type")
+            if ty_ == "claim" and isinstance(op["msg"].get("nameplate"), str) and st.frames(op["c"], "ack") \
+                    and st.err(op["c"]) not in VALIDATION:
+                holders.setdefault((b_[0], op["msg"]["nameplate"]), set()).add(b_[1])
+            elif ty_ == "claim" and st.crashed():
+                holders.setdefault((b_[0], op["msg"].get("nameplate")), set()).add(b_[1])
+            elif ty_ == "allocate":
+                fr_ = st.frames(op["c"], "allocated")
+                if fr_:
+                    holders.setdefault((b_[0], dec(fr_[0]["args"][0])), set()).add(b_[1])
+                elif st.crashed() or st.internal():
+                    blind.add(b_[0])
+            elif ty_ == "release" and st.frames(op["c"], "released"):
+                nm_ = op["msg"].get("nameplate")
+                if nm_ is None:
+                    nm_ = getattr(st, "flags_pre", {}).get(op["c"], {}).get("np")
+                k_ = (b_[0], nm_)
+                if b_[1] in holders.get(k_, set()):
+                    holders[k_].discard(b_[1])
+                    if not holders[k_] and b_[0] not in blind:
+                        ghost_gone.add(k_)
         if op["op"] == "recv" and op["msg"].get("type") == "claim" and st.frames(op["c"], "claimed"):
             c = op["c"]
             b = st.bind_pre.get(c)
@@ -305,6 +336,10 @@ def check_C03(tr, expiration=None):
                     gone.add(k)
             for k in gone - kept:
                 inc[k] = inc.get(k, 0) + 1
+                holders.pop(k, None)
+            ghost_gone -= gone
+        for k in ghost_gone:
+            inc[k] = inc.get(k, 0) + 1
     return out
 
 
@@ -580,6 +615,12 @@ def check_C08(tr):
         if (b[0], mb) in post_ids:
             if not others_open:
                 out.append(Finding("C08", "a mailbox whose last open side closed is deleted", st.i, {"mailbox": mb}))
+            mine_open = [s for s in others_open if s[2] == b[1]]
+            if mine_open:
+                # answered `closed`, yet the caller's own side is still recorded as open: the close was
+                # acknowledged but not performed (the mailbox can then never be deleted by a last close)
+                out.append(Finding("C08", "a close answered closed has closed the caller's side", st.i,
+                                   {"mailbox": mb, "side": b[1], "its_side_row": mine_open[:1]}))
             # other sides' rows, messages, subscriptions untouched
             pre_msgs = [r for r in st.pre.messages if r[1] == mb]
             post_msgs = [r for r in st.post.messages if r[1] == mb]
@@ -917,10 +958,12 @@ def close_target(st):
 def _ephemeral_mailbox(st):
     """a close of a mailbox that does not exist creates it and deletes it in one step"""
     op = st.op
-    if op["op"] == "recv" and op["msg"].get("type") == "close" and st.frames(op["c"], "closed"):
+    crashed = st.crashed()      # killed inside the step: no answer, and the created row may have been committed
+    if op["op"] == "recv" and op["msg"].get("type") == "close" and (st.frames(op["c"], "closed") or crashed):
         b = st.bind_pre.get(op["c"])
         mb = close_target(st)
-        if b and mb is not None and (b[0], mb) not in st.pre.mailbox_ids() and (b[0], mb) not in st.post.mailbox_ids() \
+        if b and mb is not None and (b[0], mb) not in st.pre.mailbox_ids() \
+                and (crashed or (b[0], mb) not in st.post.mailbox_ids()) \
                 and not any(r[1] == mb for r in st.pre.mailboxes):
             return [(b[0], mb, op["t"], 0)]
     return []
